@@ -567,6 +567,9 @@ class CompilerPassGenerateCode(CompilerPass):
 
             if (
                 isinstance(last_node, nodes.Call)
+                and isinstance(last_node.func, (nodes.Name, nodes.Attribute))
+                # only a call of a user function can become a jump (not yield_(), sleep(), ...)
+                and get_function_name(last_node.func) in self.data.functions
                 and not other_calls
                 and not has_early_return
             ):
